@@ -106,7 +106,8 @@ example : spec 3 none demo = [.subscribed, .ev 11] := by decide
 example : chanLog (run init demo) 1 = [.subscribed, .ev 7] := by decide          -- the broken one
 example : (run init demo).subs = [(2, 3)] := by decide
 example : erase 0 0 demo = [.sub 0 0, .pub 7, .pub 8, .pub 9, .unsub 0, .unsub 0, .pub 10, .pub 11] := by decide
-example : ∀ j, Op.sub j 0 ∈ demo → j = 0 := by decide
+example : ∀ j, Op.sub j 0 ∈ demo → j = 0 := by
+  intro j h; simp [demo] at h; exact h
 
 /-- freshness is needed: when two ids share one channel, unsubscribing the first
 closes the handle of the second, and the next publish raises out of
